@@ -1423,7 +1423,7 @@ class TT():
             torchtt.TT: the result.
         """
 
-        result = kron(self, other)
+        result = torchtt._extras.kron(other, self)
 
         return result
 
